@@ -221,7 +221,7 @@ def gen_parent(rnd, ctx=None):
             "pindex": 0 if d == 0 else gen.index(rnd)[1],
             "pfp": b"\x00" * 4 if d == 0 else gen.rbytes(rnd, 4),
             "testnet": rnd.random() < 0.5,
-            "form": rnd.choice(["ctor", "ctor", "str", "bytes", "stream"]), "vpurpose": rnd.choice([44, 44, 49, 84])}
+            "form": rnd.choice(["ctor", "ctor", "str", "bytes", "stream", "stream-offset", "stream-second"]), "vpurpose": rnd.choice([44, 44, 49, 84])}
     return case
 
 
